@@ -21,6 +21,7 @@ import GeomVerif.Driver.C16
 import GeomVerif.Driver.C18
 import GeomVerif.Driver.C19
 import GeomVerif.Driver.C20
+import GeomVerif.Driver.C05
 
 open GeomVerif GeomVerif.Wire
 
@@ -41,6 +42,7 @@ def dispatch (op : String) (inp go : Sexp) : Option Reply :=
   else if op.startsWith "C18." then Driver.C18.handle op inp go
   else if op.startsWith "C19." then Driver.C19.handle op inp go
   else if op.startsWith "C20." then Driver.C20.handle op inp go
+  else if op.startsWith "C05." || op.startsWith "C06." then Driver.C05.handle op inp go
   else none
 
 def handleLine (line : String) : String :=
